@@ -2171,7 +2171,8 @@ def externals(it):
         "itertools": ExtModule("itertools", dict(product=lambda *a, **k: list(itertools.product(*a, **k)),
                                                  combinations=lambda *a: list(itertools.combinations(*a)),
                                                  permutations=lambda *a: list(itertools.permutations(*a)),
-                                                 chain=lambda *a: list(itertools.chain(*a)))),
+                                                 chain=lambda *a: list(itertools.chain(*a)),
+                                                 groupby=lambda xs, key=None: [(k, list(g)) for k, g in itertools.groupby(list(xs), key)])),
         "types": ExtModule("types", dict(SimpleNamespace=_simple_namespace)),
         "inspect": ExtModule("inspect", dict(signature=_signature)),
         "math": ExtModule("math", dict(pi=ring.pi(), sqrt=sqrt, ceil=lambda x: int(_ceil(x)), floor=lambda x: int(_floor(x)),
